@@ -6,7 +6,7 @@
     nothing else); and what [write_dir] puts on the device [read_dir] — which is all a later mount has — reads back,
     entry for entry, for the fixed root region and for cluster-chain directories. *)
 From Coq Require Import ZArith List Bool Lia FMapPositive.
-From PyFatV Require Import Base.Bytes Base.PyEnv Gen.Pure Model.Codec Model.Dir Model.FS Proofs.Session Proofs.FatCodec Proofs.Device Proofs.DirCodec Proofs.DirState Proofs.Names.
+From PyFatV Require Import Base.Bytes Base.PyEnv Gen.Pure Model.Codec Model.Dir Model.FS Proofs.Session Proofs.FatCodec Proofs.Device Proofs.DirCodec Proofs.DirState Proofs.Chains Proofs.Names.
 Import ListNotations.
 Open Scope Z_scope.
 
@@ -44,6 +44,15 @@ Theorem C03_chain_dir_persists : forall s c es s' cs,
   read_dir s' c = Ok (map canon es).
 Proof. exact chain_dir_roundtrip. Qed.
 Print Assumptions C03_chain_dir_persists.
+(** ... and with hypotheses on the state BEFORE the write only: the directory's chain is intact and inside the device,
+    every cluster the allocator may hand out lies inside the device.  Growth of the directory (allocation, linking
+    behind the old last cluster, zero fill) is covered. *)
+Theorem C03_dir_persists : forall s c es s' ch,
+  dev_ok (s_dev s) -> geom_ok s -> vt (ft s) -> 0 <= s_hint s -> Forall entry_ok es -> c <> -1 ->
+  chain s c = (ch, true) -> Forall (inside s) ch -> vol_ok s ->
+  write_dir s c es = Ok s' -> read_dir s' c = Ok (map canon es).
+Proof. exact write_dir_read_dir. Qed.
+Print Assumptions C03_dir_persists.
 (* C03_remount (not proved): for all histories and quiescent states, tree_of (mount (image s)) = tree_of s. *)
 
 (** the hypotheses are satisfiable: a 4113-sector FAT12 volume (64 root entries, 512-byte clusters), an entry with a
@@ -96,4 +105,29 @@ Proof.
   assert (Hn : 2 <> -1) by discriminate.
   split; [exact E|]. split; [|auto 10].
   exact (chain_dir_roundtrip ex_st 2 [ex_ent; ex_ent] (ex_after 2) [2] dev_ok_empty G Hh Hm ex_entries_ok Hn E Hc I R).
+Qed.
+
+(** growth: 20 entries with long names (60 slots = 1920 bytes) into the one-cluster directory at cluster 2 *)
+Lemma ex_vol_ok : vol_ok ex_st.
+Proof.
+  intros c Hc. unfold inside. split; [lia|]. rewrite cluster_addr_lin by (vm_compute; repeat split; try reflexivity; discriminate).
+  change (max_cluster ex_st) with 4085 in Hc. change (bpc ex_st) with 512. change (s_dsize ex_st) with (4113 * 512).
+  change (first_data_sector (s_p ex_st)) with 29. change (BPB_BytsPerSec (s_h ex_st)) with 512. lia.
+Qed.
+Definition ex_many : list dirent := repeat ex_ent 20.
+Definition ex_grown : st := match write_dir ex_st 2 ex_many with Ok s => s | Err _ => ex_st end.
+Example C03_growth_example :
+  write_dir ex_st 2 ex_many = Ok ex_grown /\ chain ex_st 2 = ([2], true) /\ chain ex_grown 2 = ([2; 3; 4; 5], true) /\
+  read_dir ex_grown 2 = Ok (map canon ex_many).
+Proof.
+  assert (E : write_dir ex_st 2 ex_many = Ok ex_grown) by (vm_compute; reflexivity).
+  split; [exact E|]. split; [vm_compute; reflexivity|]. split; [vm_compute; reflexivity|].
+  assert (G : geom_ok ex_st) by (vm_compute; repeat split; try reflexivity; discriminate).
+  assert (V : vt (ft ex_st)) by (left; reflexivity).
+  assert (Hh : 0 <= s_hint ex_st) by (vm_compute; discriminate).
+  assert (Hes : Forall entry_ok ex_many) by (apply Forall_forall; intros x Hx; apply repeat_spec in Hx; subst x; apply ex_ent_ok).
+  assert (Hn : 2 <> -1) by discriminate.
+  assert (Hc : chain ex_st 2 = ([2], true)) by (vm_compute; reflexivity).
+  assert (I : Forall (inside ex_st) [2]) by (constructor; [vm_compute; split; discriminate|constructor]).
+  exact (write_dir_read_dir ex_st 2 ex_many ex_grown [2] dev_ok_empty G V Hh Hes Hn Hc I ex_vol_ok E).
 Qed.
